@@ -49,7 +49,8 @@ deriving Repr, DecidableEq
 inductive ADecl where
   | enumT (name : Nat) (values : List Nat) (dflt : Option Nat)
   | enumAlias (name base : Nat)
-  | structT (name : Nat) (elems : List (Nat × Ty))
+  /-- elements: name, type, initial value (an enumeration value for an element of a named type) -/
+  | structT (name : Nat) (elems : List (Nat × Ty × Option Nat))
   | subrangeT (name : Nat) (lo hi : Int)
   | fb (name : Nat) (vars : List AVar) (body : List AStmt)
   | func (name : Nat) (vars : List AVar) (body : List AStmt)
@@ -127,7 +128,7 @@ def AVar.refEdge (v : AVar) : Option Nat :=
 
 def declEdges : ADecl → Edges
   | .enumAlias n b => [(n, b)]
-  | .structT n es => es.filterMap fun e => match e.2 with | .named t => some (n, t) | _ => none
+  | .structT n es => es.filterMap fun e => match e.2.1, e.2.2 with | .named t, none => some (n, t) | _, _ => none
   | .enumT .. => []
   | .subrangeT .. => []
   | d => d.vars.filterMap fun v => v.refEdge.map fun t => (d.name, t)
@@ -199,7 +200,7 @@ def typeFbClash (ds : List ADecl) : Bool :=
 /-- type names still to be resolved: variables and structure elements with a bare type name -/
 def lateTypeRefs (ds : List ADecl) : List Nat :=
   ds.flatMap fun d => match d with
-    | .structT _ es => es.filterMap fun e => match e.2 with | .named t => some t | _ => none
+    | .structT _ es => es.filterMap fun e => match e.2.1, e.2.2 with | .named t, none => some t | _, _ => none
     | d => d.vars.filterMap AVar.refEdge
 
 def unknownTypes (ds : List ADecl) : List Nat :=
@@ -303,17 +304,28 @@ def enumValues (ds : List ADecl) : Nat → Nat → Option (List Nat)
 
 /-- P0012, P0014 (first error only): every enumeration-typed variable -/
 def ruleEnumUse (ds : List ADecl) : Groups :=
-  grp (ds.flatMap fun d => d.vars.filterMap fun v =>
-    match v.ty with
-    | .named t =>
-      if isEnumVar ds v then
-        match enumValues ds (ds.length + 1) t with
-        | none => some P0012
-        | some vs => (match v.init with
-            | some x => if vs.contains x then none else some P0014
-            | none => none)
-      else none
-    | _ => none)
+  grp (ds.flatMap fun d =>
+    (d.vars.filterMap fun v =>
+      match v.ty with
+      | .named t =>
+        if isEnumVar ds v then
+          match enumValues ds (ds.length + 1) t with
+          | none => some P0012
+          | some vs => (match v.init with
+              | some x => if vs.contains x then none else some P0014
+              | none => none)
+        else none
+      | _ => none)
+    -- structure elements with an enumeration initial value are checked the same way
+    ++ (match d with
+        | .structT _ es => es.filterMap fun e =>
+            match e.2.1, e.2.2 with
+            | .named t, some x =>
+              (match enumValues ds (ds.length + 1) t with
+                | none => some P0012
+                | some vs => if vs.contains x then none else some P0014)
+            | _, _ => none
+        | _ => []))
 
 /-- names a statement refers to as variables -/
 def AStmt.varRefs : AStmt → List Nat
